@@ -324,7 +324,7 @@ func shrink(t *testing.T, sc *Scenario, tier string, seed uint64) {
 		}
 		return a[:n]
 	}
-	progress := true
+	progress := os.Getenv("VERIF_NO_SHRINK") == ""
 	for pass := 0; pass < 4 && progress; pass++ {
 		progress = false
 		for k := 0; k < 3; k++ {
